@@ -67,7 +67,9 @@ func (g *Gen) FnLine(pool []string, verb, db, coll string, carrier string) *FnCa
 	for len(n) < 5 {
 		n = append(n, n[0])
 	}
-	l := func(slot string) *Node { return g.LitClass(g.pick("str", "str", "num", "email", "date", "oid", "bool"), "fn-"+slot) }
+	l := func(slot string) *Node {
+		return g.LitClass(g.pick("str", "str", "num", "email", "date", "oid", "bool"), "fn-"+slot)
+	}
 	ref := func(name string) *Node { return StrN("$" + name).With(&Tag{Role: Ref}) }
 	var cmd *Node
 	var clauses [][]string
